@@ -27,7 +27,12 @@ HookNamesOf(cfg) == {cfg.methods[i].dst : i \in 1..Len(cfg.methods)}
 
 Ctx0 == [blk |-> FALSE, ex |-> FALSE, tagged |-> FALSE, inchain |-> FALSE]
 
-Site(k, tag, n, en, req, dst) == [k |-> k, tag |-> tag, id |-> n.id, en |-> en, req |-> en /\ req, dst |-> dst]
+(* ns: a  <path>.m.call|apply(..)  site whose callee path is not a static X.y.z path *)
+Site(k, tag, n, en, req, dst) == [k |-> k, tag |-> tag, id |-> n.id, en |-> en, req |-> en /\ req, dst |-> dst, ns |-> FALSE]
+
+RECURSIVE IsStaticPathS(_)
+IsStaticPathS(m) == m.t = "MemberExpression" /\ m.c[2].t = "Identifier" /\
+                    (m.c[1].t = "Identifier" \/ (m.c[1].t = "MemberExpression" /\ IsStaticPathS(m.c[1])))
 
 (* receiver kinds the property lists (raw node, parentheses not stripped) *)
 RecvListed(o) ==
@@ -65,12 +70,12 @@ Own(n, ctx, cfg) ==
          IN IF m \in {"call", "apply"} /\ o.t = "MemberExpression" /\ o.c[2].t = "Identifier"
             THEN \* <path>.mm.call|apply(this, ...)
                  LET mm == o.c[2].v IN
-                 << Site("protocall", mm, n, HasMethod(cfg, mm),
+                 << [Site("protocall", mm, n, HasMethod(cfg, mm),
                          /\ live /\ IsProtoPath(o)
                          /\ Len(args) >= 1 /\ ~IsSpreadArg(args[1]) /\ RecvListed(args[1].c[1])
                          /\ \/ m = "call"
                             \/ Len(args) >= 2 /\ ~IsSpreadArg(args[2]) /\ args[2].c[1].t = "ArrayExpression",
-                         MethodDst(cfg, mm)) >>
+                         MethodDst(cfg, mm)) EXCEPT !.ns = ~IsStaticPathS(o)] >>
             ELSE << Site("call", m, n, HasMethod(cfg, m),
                          /\ live
                          /\ \/ RecvListed(o)
